@@ -589,6 +589,17 @@ class Interp:
             if op == 'ashr':
                 s = self.signed_t(x, n); return Sym(self.canon_t(z3.If(s >= 0, s / (1 << b), -((-s + (1 << b) - 1) / (1 << b))), n), n)
             if op == 'or' and b == 0: return a
+            if op == 'or' and b != 0 and ahi < (b & -b):             # constant with only higher bits set: disjoint, exact as a sum
+                r = Sym(x + b, n, alo + b, ahi + b); return r
+            if op == 'and' and b != 0 and (b & (b + 1)) != 0:
+                # mask that keeps a contiguous field [lo_bit, hi_bit]: (x / 2^lo) mod 2^w * 2^lo
+                lo_bit = (b & -b).bit_length() - 1; fld = b >> lo_bit
+                if fld & (fld + 1) == 0:
+                    w = fld.bit_length()
+                    if ahi < (1 << (lo_bit + w)): q = x / (1 << lo_bit)
+                    else: q = (x / (1 << lo_bit)) % (1 << w)
+                    r = Sym(q * (1 << lo_bit), n, 0, fld << lo_bit); r.tz = lo_bit
+                    return r
             if op == 'xor' and b == 0: return a
         if op == 'or' and isinstance(a, Sym) and isinstance(b, Sym):
             # disjoint bit ranges (hi << k) | lo: exact as a sum
